@@ -581,3 +581,211 @@ Proof.
     destruct (pb_parse b0); discriminate.
 Qed.
 End Total.
+
+(* ================================================================ protobuf serializer: the preserved value shapes *)
+Lemma all2_map {A} (R : A -> A -> bool) (okb : A -> bool) (f : A -> A) l :
+  (forall x, okb x = true -> R x (f x) = true) -> forallb okb l = true -> all2 R l (map f l) = true.
+Proof.
+  intros H. induction l as [|x l IH]; cbn; [reflexivity|]. intro Hl.
+  apply andb_true_iff in Hl. destruct Hl as [Hx Hl]. now rewrite (H x Hx), (IH Hl).
+Qed.
+Lemma forallb_map {A B} (p : B -> bool) (okb : A -> bool) (f : A -> B) l :
+  (forall x, okb x = true -> p (f x) = true) -> forallb okb l = true -> forallb p (map f l) = true.
+Proof.
+  intros H. induction l as [|x l IH]; cbn; [reflexivity|]. intro Hl.
+  apply andb_true_iff in Hl. destruct Hl as [Hx Hl]. now rewrite (H x Hx), (IH Hl).
+Qed.
+
+Section Pb.
+Variable T : gotable.
+Variable fmt_time : tm -> bytes.
+Variable parse_time : bytes -> option tm.
+Variable compress : ckind -> bytes -> bytes.
+Variable decompress : ckind -> bytes -> option bytes.
+Variable json_print : json -> bytes.
+Variable json_parse : bytes -> option json.
+Variable pb_print : plog -> bytes.
+Variable pb_parse : bytes -> option plog.
+Hypothesis comp_rt : forall k x, decompress k (compress k x) = Some x.
+Hypothesis json_rt : forall j, json_clean j = true -> json_parse (json_print j) = Some j.
+Hypothesis pb_rt : forall p, plog_clean p = true -> pb_parse (pb_print p) = Some p.
+
+Lemma pb_value_rt v : pb_val_ok v = true ->
+  exists j, pb_marshal_value fmt_time v = Some j /\ json_clean j = true /\
+  exists v', pb_unmarshal_value j = Some v' /\ executor_eq v v' = true.
+Proof.
+  destruct v as [|w z|b|s|b|t|b|]; cbn [pb_val_ok]; intro H; try discriminate.
+  - exists JNull. repeat split. exists GNil. split; reflexivity.
+  - apply andb_true_iff in H. destruct H as [_ H].
+    exists (JNum (num_of_int z)). repeat split. exists (GF64 (f64_of_Z z)). split; [reflexivity|exact H].
+  - exists (JNum (num_of_f64 b)). cbn [pb_marshal_value]. rewrite H. repeat split.
+    exists (GF64 b). split; [reflexivity|]. cbn. now apply f64_eq_refl.
+  - exists (JStr s). cbn [pb_marshal_value]. unfold utf8_sanitize. rewrite H. split; [reflexivity|].
+    split; [exact H|]. exists (GStr s). split; [reflexivity|]. cbn. apply bytes_eqb_refl.
+Qed.
+
+Notation ToCol := (to_pcol fmt_time json_print).
+Notation OfCol := (of_pcol json_parse).
+
+Lemma pcol_rt c : pcol_ok c = true ->
+  exists p, ToCol c = Some p /\ valid_utf8 (p_name p) = true /\
+  exists c', OfCol p = Some c' /\ col_equiv executor_eq c c' = true.
+Proof.
+  intro H. apply andb_true_iff in H. destruct H as [Hn Hv].
+  destruct (pb_value_rt _ Hv) as (j & Hm & Hc & v' & Hu & He).
+  unfold to_pcol. rewrite Hm. eexists. split; [reflexivity|]. split; [exact Hn|].
+  unfold of_pcol. cbn [p_val p_pk p_name p_type]. rewrite (json_rt _ Hc), Hu.
+  eexists. split; [reflexivity|]. unfold col_equiv. cbn [c_pk c_name c_type c_val].
+  rewrite bytes_eqb_refl, Z.eqb_refl, He. destruct (c_pk c); reflexivity.
+Qed.
+
+Lemma prow_rt r : forallb pcol_ok r = true ->
+  forallb (fun c => valid_utf8 (p_name c)) (filter_map ToCol r) = true
+  /\ all2 (col_equiv executor_eq) r (filter_map OfCol (filter_map ToCol r)) = true.
+Proof.
+  induction r as [|c r IH]; cbn [forallb filter_map]; [split; reflexivity|]. intro H.
+  apply andb_true_iff in H. destruct H as [Hc Hr].
+  destruct (pcol_rt c Hc) as (p & Hp & Hn & c' & Hc' & He). destruct (IH Hr) as [I1 I2].
+  rewrite Hp. cbn [forallb filter_map]. rewrite Hc'. cbn [all2]. rewrite Hn, I1, He, I2. split; reflexivity.
+Qed.
+
+Lemma pimage_rt o : pimage_ok o = true ->
+  match option_map (to_pimage fmt_time json_print) o with
+  | Some i => valid_utf8 (pi_table i) && forallb (forallb (fun c => valid_utf8 (p_name c))) (pi_rows i)
+  | None => true
+  end = true
+  /\ opt_eqb (image_equiv executor_eq) o
+       (option_map (of_pimage json_parse) (option_map (to_pimage fmt_time json_print) o)) = true.
+Proof.
+  destruct o as [i|]; cbn [pimage_ok option_map opt_eqb]; [|split; reflexivity]. intro H.
+  apply andb_true_iff in H. destruct H as [Ht Hr].
+  unfold to_pimage, of_pimage, image_equiv. cbn [pi_table pi_sqltype pi_rows i_table i_sqltype i_rows].
+  rewrite Ht, bytes_eqb_refl, Z.eqb_refl, map_map. split.
+  - cbn. apply (forallb_map _ (forallb pcol_ok)); [|exact Hr]. intros r Hrr. now apply prow_rt.
+  - cbn. apply (all2_map _ (forallb pcol_ok)); [|exact Hr]. intros r Hrr. now apply prow_rt.
+Qed.
+
+Lemma plog_rt u : log_pb_ok u = true ->
+  plog_clean (to_plog fmt_time json_print u) = true
+  /\ log_equiv executor_eq u (of_plog json_parse (to_plog fmt_time json_print u)) = true.
+Proof.
+  intro H. unfold log_pb_ok in H. apply andb_true_iff in H. destruct H as [Hx Hi].
+  unfold plog_clean, to_plog, of_plog, log_equiv. cbn [pu_xid pu_branch pu_items u_xid u_branch u_items].
+  rewrite Hx, bytes_eqb_refl, Z.eqb_refl, map_map. cbn [andb]. split.
+  - apply (forallb_map _ (fun it => valid_utf8 (l_table it) && pimage_ok (l_before it) && pimage_ok (l_after it)));
+      [|exact Hi].
+    intros it Hit. repeat rewrite andb_true_iff in Hit. destruct Hit as [[Ht Hb] Ha].
+    cbn [pl_table pl_before pl_after]. rewrite Ht.
+    destruct (pimage_rt _ Hb) as [B _]. destruct (pimage_rt _ Ha) as [A _].
+    unfold option_map in *. destruct (l_before it), (l_after it); cbn in *; rewrite ?B, ?A; reflexivity.
+  - apply (all2_map _ (fun it => valid_utf8 (l_table it) && pimage_ok (l_before it) && pimage_ok (l_after it)));
+      [|exact Hi].
+    intros it Hit. repeat rewrite andb_true_iff in Hit. destruct Hit as [[Ht Hb] Ha].
+    unfold item_equiv. cbn [l_sqltype l_table l_before l_after pl_sqltype pl_table pl_before pl_after].
+    rewrite Z.eqb_refl, bytes_eqb_refl.
+    destruct (pimage_rt _ Hb) as [_ B]. destruct (pimage_rt _ Ha) as [_ A]. rewrite B, A. reflexivity.
+Qed.
+
+Theorem lossless_protobuf_partial c u :
+  select T s_None = CNone -> bytes_eqb (cf_ser c) s_protobuf = true -> clean_text (cf_ctype c) = true ->
+  log_pb_ok u = true ->
+  exists ctx info, flush T fmt_time compress json_print pb_print c u = Some (ctx, info) /\
+  exists u', read_back T parse_time decompress json_parse pb_parse ctx info = Ok u'
+             /\ log_equiv executor_eq u u' = true.
+Proof.
+  intros HN Hser Hct Hok. destruct (plog_rt u Hok) as [Hclean Heq].
+  apply bytes_eqb_eq in Hser.
+  unfold flush, serialize. rewrite Hser.
+  change (bytes_eqb s_protobuf s_json) with false. rewrite bytes_eqb_refl. cbv beta iota.
+  eexists. eexists. split; [reflexivity|].
+  exists (of_plog json_parse (to_plog fmt_time json_print u)). split; [|exact Heq].
+  unfold declared. destruct (cf_enable c).
+  - rewrite (read_after_flush T parse_time compress decompress json_parse pb_parse comp_rt
+               s_protobuf (cf_ctype c) (select T (cf_ctype c))) by (auto; reflexivity).
+    change (bytes_eqb s_protobuf s_json) with false. rewrite bytes_eqb_refl. cbv beta iota.
+    now rewrite (pb_rt _ Hclean).
+  - change (pb_print (to_plog fmt_time json_print u))
+      with (compress_by compress CNone (pb_print (to_plog fmt_time json_print u))).
+    rewrite (read_after_flush T parse_time compress decompress json_parse pb_parse comp_rt
+               s_protobuf s_None CNone) by (auto; reflexivity).
+    change (bytes_eqb s_protobuf s_json) with false. rewrite bytes_eqb_refl. cbv beta iota.
+    now rewrite (pb_rt _ Hclean).
+Qed.
+End Pb.
+
+(* outside the predicate the protobuf serializer loses the value: integer beyond 2^53, bytes, time *)
+Definition pb_through (v : gval) : option gval :=
+  match pb_marshal_value fmt_time_ref v with Some j => pb_unmarshal_value j | None => None end.
+Lemma pb_refuted_int :
+  pb_through (GInt W64 9007199254740993) = Some (GF64 4845873199050653696%N)
+  /\ executor_eq (GInt W64 9007199254740993) (GF64 4845873199050653696%N) = false.
+Proof. vm_compute. split; reflexivity. Qed.
+Lemma pb_refuted_bytes : exists v', pb_through (GBytes [Byte.x00; Byte.xff]) = Some v'
+  /\ executor_eq (GBytes [Byte.x00; Byte.xff]) v' = false.
+Proof. eexists. vm_compute. split; reflexivity. Qed.
+Lemma pb_refuted_time : exists v', pb_through (GTime (mkTm 2024 2 29 23 59 58 120000000 0)) = Some v'
+  /\ executor_eq (GTime (mkTm 2024 2 29 23 59 58 120000000 0)) v' = false.
+Proof. eexists. vm_compute. split; reflexivity. Qed.
+Lemma pb_int_boundary :
+  pb_val_ok (GInt W64 9007199254740992) = true /\ pb_val_ok (GInt W64 9007199254740993) = false
+  /\ pb_val_ok (GInt W64 (-9223372036854775808)) = true.
+Proof. vm_compute. repeat split. Qed.
+
+(* ================================================================ context codec, arbitrary maps *)
+Definition ctx_clean (m : list (bytes * bytes)) : bool :=
+  forallb (fun kv => clean_text (fst kv) && clean_text (snd kv)) m.
+
+Lemma enc_cons k v r : exists b l, encode_ctx ((k, v) :: r) = b :: l.
+Proof. destruct r as [|[k2 v2] r]; cbn [encode_ctx]; destruct k; cbn; eauto. Qed.
+
+Lemma pair_text_no_amp k v : clean_text k = true -> clean_text v = true -> no_sep c_amp (k ++ c_eq :: v) = true.
+Proof.
+  intros A B. destruct (clean_no_sep _ A) as [A1 _]. destruct (clean_no_sep _ B) as [B1 _].
+  apply no_sep_app; [exact A1|]. unfold no_sep in *. cbn [forallb]. rewrite B1. reflexivity.
+Qed.
+
+Lemma decode_pairs_encode m : ctx_clean m = true -> m <> [] ->
+  filter_map decode_pair (split_on c_amp (encode_ctx m)) = m.
+Proof.
+  induction m as [|[k v] r IH]; [congruence|]. intros H _.
+  cbn [ctx_clean forallb fst snd] in H. repeat rewrite andb_true_iff in H. destruct H as [[Hk Hv] Hr].
+  destruct (clean_no_sep _ Hk) as [_ K2]. destruct (clean_no_sep _ Hv) as [_ V2].
+  pose proof (pair_text_no_amp k v Hk Hv) as P.
+  destruct r as [|p2 r'].
+  - cbn [encode_ctx app]. rewrite (split_clean _ _ P). cbn [filter_map]. now rewrite decode_pair_kv.
+  - assert (E : encode_ctx ((k, v) :: p2 :: r') = (k ++ c_eq :: v) ++ c_amp :: encode_ctx (p2 :: r')).
+    { destruct p2. cbn [encode_ctx app]. now rewrite app_comm_cons, app_assoc. }
+    rewrite E, (split_app _ _ _ P). cbn [filter_map]. rewrite decode_pair_kv by assumption.
+    f_equal. apply IH; [exact Hr|discriminate].
+Qed.
+
+Theorem ctx_roundtrip m : ctx_clean m = true -> decode_ctx (encode_ctx m) = m.
+Proof.
+  intro H. destruct m as [|[k v] r]; [reflexivity|].
+  unfold decode_ctx. destruct (enc_cons k v r) as (b & l & E). rewrite E. rewrite <- E.
+  apply decode_pairs_encode; [exact H|discriminate].
+Qed.
+
+(* with distinct keys (a Go map) every entry is found again *)
+Fixpoint assoc (k : bytes) (m : list (bytes * bytes)) : option bytes :=
+  match m with [] => None | (k', v) :: r => if bytes_eqb k k' then Some v else assoc k r end.
+Lemma ctx_get_assoc k m : NoDup (map fst m) -> ctx_get k m = assoc k m.
+Proof.
+  induction m as [|[k' v] r IH]; [reflexivity|]. intro H. inversion H as [|? ? Hn Hd]; subst.
+  cbn [ctx_get assoc]. rewrite (IH Hd). destruct (bytes_eqb k k') eqn:E.
+  - apply bytes_eqb_eq in E. subst k'. destruct (assoc k r) eqn:A; [|reflexivity].
+    exfalso. apply Hn. clear - A. induction r as [|[k2 v2] r IH]; [discriminate|].
+    cbn in A |- *. destruct (bytes_eqb k k2) eqn:E2; [left; symmetry; now apply bytes_eqb_eq|right; auto].
+  - destruct (assoc k r); reflexivity.
+Qed.
+Theorem ctx_map_roundtrip m k : ctx_clean m = true -> NoDup (map fst m) ->
+  ctx_get k (decode_ctx (encode_ctx m)) = assoc k m.
+Proof. intros H D. rewrite (ctx_roundtrip m H). now apply ctx_get_assoc. Qed.
+
+(* a '=' or '&' inside a key or value loses the entry or changes another *)
+Lemma ctx_map_refuted_eq : exists m, NoDup (map fst m) /\
+  ctx_get (bs "k") (decode_ctx (encode_ctx m)) <> assoc (bs "k") m.
+Proof. exists [(bs "k", bs "a=b")]. split; [repeat constructor; intros []|]. vm_compute. discriminate. Qed.
+Lemma ctx_map_refuted_amp : exists m, NoDup (map fst m) /\
+  ctx_get (bs "x") (decode_ctx (encode_ctx m)) <> assoc (bs "x") m.
+Proof. exists [(bs "k", bs "a&x=1")]. split; [repeat constructor; intros []|]. vm_compute. discriminate. Qed.
